@@ -43,7 +43,7 @@ def run(ctx):
     if n < 1000:
         raise Infra("vector export too small: %d" % n)
     res = ctx.harness_json("framing", ["c01", vec], timeout=1800)
-    if res["evaluations"] < n:
+    if res["evaluations"] < n and not res.get("failures"):
         raise Infra("harness replayed %d of %d vectors" % (res["evaluations"], n))
     ctx.traces += res["evaluations"]
     ctx.failures(res["failures"])
